@@ -294,11 +294,13 @@ func (k *Keys) ReadKey() (key rune, isAbort bool) {
 		// report), and consider a closed or failing input as an abort.
 		var buf []byte
 
-		for len(buf) == 0 {
-			var err error
-			if buf, err = k.readInputFiltered(); err != nil {
+		for len(buf) == 0 || !utf8.FullRune(buf) {
+			read, err := k.readInputFiltered()
+			if err != nil {
 				return 0, true
 			}
+
+			buf = append(buf, read...)
 		}
 
 		key = k.firstKey(buf)
